@@ -45,7 +45,9 @@ check("C10",
            "dynamic logograms must be refused; request histories: ALL ordered pairs over {specifiers, qualifiers} x {56 reserved "
            "words, invisible, dynamic} and all ordered triples over a reduced alphabet (every basic name in both families + 4/12 "
            "others): each answer (value or refusal) must be what the name alone determines; | & ^ implies and the compound "
-           "assignments on all 64x64 pairs of (one-bit, two-bit) raw values over the full width of the representation. distinct_nontrivial = non-empty subsets "
+           "assignments on all 64x64 pairs of (one-bit, two-bit) raw values over the full width of the representation; ALL histories of <= 3 (4) letters over "
+           "two Lexicons A and B {ask A / ask B one of 12 questions (name lookups in both families, decompositions of 4 specifier and 2 qualifier "
+           "sets), destroy B, create B}: every answer is what the question alone determines. distinct_nontrivial = non-empty subsets "
            "enumerated.",
       text="The finite configuration space of the property is closed completely (unary laws in both tiers, binary "
            "laws in thorough) on the real Lexicon and the real header operators, against a bitmask reference model.",
@@ -75,7 +77,8 @@ check("C11",
       passes=[dict(name="C11", src=["harness/C11.cpp"] + ENV, variant="fast", shards={"quick": 8, "thorough": 16})],
       rule="for each of 6 unqualified base types (built-in, pointer, class, array, function, as-type) and EVERY sequence of "
            "<= 3 (quick) / <= 5 (thorough) successive get_qualified requests over the 7 non-empty qualifier sets, x {direct "
-           "request first / last} x {unrelated constructions interleaved / not}, on a fresh Lexicon: every prefix result is the "
+           "request first / last} x {nothing else / unrelated constructions interleaved / a second live Lexicon makes each request of the chain first / a "
+           "transient Lexicon repeats the chain so far before each step and dies}, on a fresh Lexicon: every prefix result is the "
            "node of get_qualified(union, T), qualifiers()==union, main_variant()==T and is not a Qualified, the empty set is "
            "refused at every stage and changes nothing; after each chain all 7 sets are requested directly over the same T, twice "
            "(own node each, found again); plus all 7! orders of the seven direct requests over one type and 84 keys (7 sets x 12 types) in one table under six "
@@ -157,7 +160,9 @@ check("C04",
            "identifiers, each re-requested and re-read afterwards; value equalities: 5 linkage x 6 convention spellings (incl. near-misses C+ / stdcal "
            "and a convention spelled C), every linkage, convention and transfer obtained through every public route (both overloads, "
            "two-argument transfer, from-linkage / from-convention shorthands, a function type's transfer()), twice, in two request "
-           "orders: == and != on ALL pairs <=> same spelling(s), one node per linkage / convention spelling.",
+           "orders: == and != on ALL pairs <=> same spelling(s), one node per linkage / convention spelling; the compact alphabet again to depth 2 (3) "
+           "with a second Lexicon that performs every request right after the first one (each against its own model), and with a transient "
+           "Lexicon that repeats the history so far after every step and dies.",
       text="All request histories up to the bound on the real name/expression factories under controlled address orders, "
            "against a key->node reference model plus two whole-state invariants.",
       note="Identity is compared on interface pointers of the same interface type. The model identifies label(id) with "
@@ -238,9 +243,10 @@ check("C02",
       passes=[dict(name="C02", src=["harness/C02.cpp"] + ENV, shared=ZOO, deps=ZOO_DEPS, variant="fast", shards={"quick": 12, "thorough": 12})],
       rule="the complete product factory row (one per factory overload of form_factory, attr_factory, capture_spec_factory, "
            "type_factory, name_factory, expr_factory, dir_factory, stmt_factory, Lexicon, Scope/Region/Udt declare_*, Enum, Class, Block, "
-           "Parameter_list, Mapping, Module) x 12 operand rotations (each under one of four heap-address personalities: malloc, ascending, descending, alternating) x optional parts supplied / not supplied x 4 histories (fresh Lexicon; "
+           "Parameter_list, Mapping, Module) x 12 operand rotations (each under one of four heap-address personalities: malloc, ascending, descending, alternating) x optional parts supplied / not supplied x 6 histories (fresh Lexicon; "
            "after 1000 unrelated constructions; after the whole table was built once; every node re-read after the table was rebuilt "
-           "11 times with all other rotations in units of their own on the same Lexicon); each documented accessor (primitive and named "
+           "11 times with all other rotations in units of their own on the same Lexicon; in the place of a Lexicon that built the same table and died, "
+           "node for node at the same addresses; every row on its own twice in a row, the second time at the addresses of the first); each documented accessor (primitive and named "
            "alias) must return exactly the argument given (identity for nodes, value for enumerators/qualifiers/positions/strings), "
            "unsupplied optional parts read as absent or refuse with logic_error, settable links read back after being set; every "
            "Scope::make_* called three times with one name and type: each redeclaration reports what ITS call was given, per-declaration "
